@@ -204,6 +204,10 @@ def cases(tier, seed):
         for m in range(M + 1):
             for muts in itertools.product(MUTATORS, repeat=m):
                 reads_all = [rs for r in range(1, R + 1) for rs in itertools.product(READS, repeat=r)]
+                if tier == 'quick' and m >= 1:
+                    # after a mutator: all single operations, pairs over the operations that touch shared structure
+                    core = ['run', 'get_edges_all', 'collect_edges', 'to_yaml', 'deepcopy', 'update_template']
+                    reads_all = [(r,) for r in READS] + list(itertools.product(core, repeat=2))
                 if tier != 'quick' and m <= 1:
                     reads_all += [rs for rs in itertools.product(['run', 'get_edges_all', 'to_yaml', 'deepcopy',
                                                                   'collect_edges', 'update_template'], repeat=3)]
@@ -214,7 +218,7 @@ def cases(tier, seed):
 
 def describe(tier, seed):
     return {'rule': 'seeds {flat, depth-1, depth-2, shared operators with per-node overrides, YAML-derived} x every sequence of '
-                    '<=M legitimate mutators x every sequence of <=2 (3 on a sub-alphabet) of the 14 listed read-only / '
+                    '<=M legitimate mutators x every sequence of <=2 (quick: pairs after a mutator over a 6-operation core; thorough: 3 on a sub-alphabet) of the 14 listed read-only / '
                     'copy-making operations; invariant after every read op: canonical dump of the template (equations, '
                     'declared values, per-node variations, edges incl. attribute dicts, edge map, object sharing) unchanged; '
                     'at the end the vector field equals that of a pristine twin and two consecutive run(in_place=False) '
